@@ -124,6 +124,13 @@ func lpLine(r *simrt.RNG, i int, withTime bool) string {
 	if r.Intn(3) == 0 {
 		fields["ok"] = true
 	}
+	if r.Intn(4) == 0 {
+		// string values with escaped quotes, raw newlines, commas, equals signs and backslashes
+		fields["note"] = []string{"size 5\" x 7\nsecond line", "a=b,c d", "back\\slash \"q\"", "\"\"\"\nx", "tab\there"}[r.Intn(5)]
+	}
+	if r.Intn(6) == 0 {
+		tags["path"] = []string{"a b", "x=y", "c,d", "e\\f"}[r.Intn(4)]
+	}
 	pt, err := influxdb.NewPoint(fmt.Sprintf("cpu%d", i), tags, fields, time.Unix(1700000000+int64(r.Intn(100000)), int64(r.Intn(1000))))
 	if err != nil {
 		return "cpu usage=1"
